@@ -1,6 +1,654 @@
 package checks
 
-// Family group "Builtin" of C26 (see C26_FAMILY_BRIEF.md). Emits programs through
-// emit(desc, src); desc starts with the family name and a dash.
+import (
+	"regexp"
+	"strconv"
+	"strings"
+)
+
+// Family group "Builtin" of C26 (see C26_FAMILY_BRIEF.md): the command-level
+// behaviour of test / [ / [[ ]], arithmetic commands, arrays as ordinary
+// programs use them, and the common builtins. Families (the text before the
+// first dash of a description): btest, barith, barray, bcmd.
+//
+// Every observation is one line `command; echo "N:$?"` (or an echo of the
+// state the command left); a program is a column of such lines over one
+// dimension, the programs range over the other dimensions. No printf, no
+// echo argument starting with a dash or containing a backslash or percent.
 func c26GenBuiltin(thorough bool, emit c26EmitFn) {
+	c26BuiltinTestUnary(thorough, emit)
+	c26BuiltinTestBinary(thorough, emit)
+	c26BuiltinTestArgc(thorough, emit)
+	c26BuiltinTestWords(thorough, emit)
+	c26BuiltinArith(thorough, emit)
+	c26BuiltinArrays(thorough, emit)
+	c26BuiltinShiftSet(thorough, emit)
+	c26BuiltinNounset(thorough, emit)
+	c26BuiltinUnsetReadonly(thorough, emit)
+	c26BuiltinEval(thorough, emit)
+	c26BuiltinGetopts(thorough, emit)
+	c26BuiltinTypeCd(thorough, emit)
+	c26BuiltinExit(thorough, emit)
+}
+
+// c26BuiltinCol numbers the commands and prints the status of each.
+func c26BuiltinCol(pre string, cmds []string) string {
+	var sb strings.Builder
+	sb.WriteString(pre)
+	for i, c := range cmds {
+		sb.WriteString(c + "; echo \"" + strconv.Itoa(i+1) + ":$?\"\n")
+	}
+	return sb.String()
+}
+
+// c26BuiltinPacked runs every program text in a subshell of its own, numbered:
+// the quick tier's way of keeping a dimension without one program per value.
+func c26BuiltinPacked(srcs []string) string {
+	var sb strings.Builder
+	for i, c := range srcs {
+		n := strconv.Itoa(i + 1)
+		sb.WriteString("echo \"== " + n + "\"\n(\n" + strings.TrimSuffix(c, "\n") + "\n)\necho \"== " + n + " status $?\"\n")
+	}
+	return sb.String()
+}
+
+const c26BuiltinFilePre = "echo hi > f; : > e; v=1; w=; a=(1 2); declare -n ref=v; set -f\n"
+
+// ---- test / [ / [[ ]]: unary operators ------------------------------------
+
+func c26BuiltinTestUnary(thorough bool, emit c26EmitFn) {
+	ops := []string{"-z", "-n", "-e", "-a", "-f", "-d", "-s", "-r", "-w", "-x", "-L", "-h", "-p", "-S", "-b", "-c", "-t", "-v", "-o", "-R", "-N", "-O", "-G", "-k", "-g", "-u"}
+	generic := []string{"''", "f", "e", ".", "..", "nx", "/dev/null", "/tmp", "0", "1", "v", "w", "u", "a", "ref", "noglob", "errexit", "'-n'", "'f '"}
+	for _, op := range ops {
+		operands := generic
+		switch op {
+		case "-N":
+			// access and modification times of a file that was written to, of
+			// a directory and of a device depend on timing: fresh empty file only
+			operands = []string{"''", "e", "nx"}
+		case "-L", "-h":
+			operands = append(append([]string{}, generic...), "/dev/stdin", "/bin")
+		}
+		var cmds []string
+		if op != "-a" && op != "-o" {
+			// `[ -a ]` `[ -o ]` are one-argument tests as well, but `[ ! -a ]`
+			// is a binary-operator question of the argc family
+			cmds = append(cmds, "test "+op, "[ "+op+" ]", "[ ! "+op+" ]")
+		}
+		for _, x := range operands {
+			cmds = append(cmds,
+				"test "+op+" "+x,
+				"[ "+op+" "+x+" ]",
+				"[[ "+op+" "+x+" ]]",
+				"[ ! "+op+" "+x+" ]",
+				"[[ ! "+op+" "+x+" ]]")
+		}
+		emit("btest-unary["+op+"]", c26BuiltinCol(c26BuiltinFilePre, cmds))
+	}
+}
+
+// ---- binary operators ------------------------------------------------------
+
+var c26BuiltinIntRx = regexp.MustCompile(`^'?[-+]?[1-9][0-9]*'?$|^0$`)
+
+func c26BuiltinTestBinary(thorough bool, emit c26EmitFn) {
+	ops := []string{"=", "==", "!=", "<", ">", "-eq", "-ne", "-lt", "-le", "-gt", "-ge", "-nt", "-ot", "-ef"}
+	type pair struct{ x, y string }
+	pairs := []pair{
+		// strings
+		{"a", "a"}, {"a", "b"}, {"b", "a"}, {"''", "a"}, {"a", "''"}, {"''", "''"}, {"'a b'", "'a b'"}, {"A", "a"}, {"10", "9"},
+		{"ab", "'a*'"}, {"'a*'", "'a*'"}, {"'-n'", "'-n'"}, {"'!'", "'!'"}, {"'('", "'('"}, {"'-a'", "'-a'"},
+		// integers
+		{"1", "1"}, {"1", "2"}, {"2", "1"}, {"-1", "1"}, {"+1", "1"}, {"' 1'", "1"}, {"'1 '", "1"}, {"01", "1"}, {"010", "8"}, {"010", "10"},
+		{"''", "0"}, {"1", "''"}, {"x", "1"}, {"1", "x"}, {"1.5", "1"}, {"0x10", "16"},
+		{"9223372036854775807", "9223372036854775806"}, {"9223372036854775808", "0"},
+		// files
+		{"f", "f"}, {"f", "nx"}, {"nx", "f"}, {"nx", "nx"}, {"f", "/"}, {"/", "f"}, {"f", "./f"}, {".", "./."}, {"f", "e"},
+	}
+	numeric := map[string]bool{"-eq": true, "-ne": true, "-lt": true, "-le": true, "-gt": true, "-ge": true}
+	for _, op := range ops {
+		var all []string
+		for _, sp := range []string{"test", "[", "[["} {
+			var cmds []string
+			for _, p := range pairs {
+				if (op == "-nt" || op == "-ot") && p.x == "f" && p.y == "e" {
+					continue // two fresh files: their order in time is a race with the clock tick
+				}
+				o := op
+				if sp != "[[" && (op == "<" || op == ">") {
+					o = "\\" + op
+				}
+				switch sp {
+				case "test":
+					cmds = append(cmds, "test "+p.x+" "+o+" "+p.y)
+				case "[":
+					cmds = append(cmds, "[ "+p.x+" "+o+" "+p.y+" ]", "[ ! "+p.x+" "+o+" "+p.y+" ]")
+				case "[[":
+					if numeric[op] && (!(c26BuiltinIntRx.MatchString(p.x) && c26BuiltinIntRx.MatchString(p.y)) || len(p.x) > 18) {
+						// [[ ]] evaluates these operands as arithmetic expressions:
+						// known class dbr-arithmetic-operands-not-evaluated, and C20's subject
+						continue
+					}
+					if op == "=" || op == "==" || op == "!=" {
+						// the right side is a pattern unless quoted: keep it a string
+						y := p.y
+						if !strings.HasPrefix(y, "'") {
+							y = "'" + y + "'"
+						}
+						cmds = append(cmds, "[[ "+p.x+" "+o+" "+y+" ]]", "[[ ! "+p.x+" "+o+" "+y+" ]]")
+						continue
+					}
+					cmds = append(cmds, "[[ "+p.x+" "+o+" "+p.y+" ]]", "[[ ! "+p.x+" "+o+" "+p.y+" ]]")
+				}
+			}
+			if thorough {
+				emit("btest-binary["+op+" "+sp+"]", c26BuiltinCol(c26BuiltinFilePre, cmds))
+			} else {
+				all = append(all, cmds...)
+			}
+		}
+		if !thorough {
+			emit("btest-binary["+op+"]", c26BuiltinCol(c26BuiltinFilePre, all))
+		}
+	}
+	// =~ exists in [[ ]] only
+	emit("btest-regex[status]", c26BuiltinCol("bad='['; star='*'\n", []string{
+		"[[ abc =~ b ]]", "[[ abc =~ ^b ]]", "[[ abc =~ ^a.c$ ]]", "[[ abc =~ a+ ]]", "[[ '' =~ .* ]]", "[[ abc =~ $bad ]]", "[[ abc =~ $star ]]",
+		"[[ ! abc =~ b ]]", "[[ abc =~ b && abc =~ d ]]", "[[ abc =~ d || abc =~ c$ ]]", "[[ 'a b' =~ a.b ]]", "[[ abc =~ (a)(b) ]]",
+	})+"echo \"m=${BASH_REMATCH[0]} ${BASH_REMATCH[1]} ${BASH_REMATCH[2]} n=${#BASH_REMATCH[@]}\"\n"+
+		"[[ abc =~ x ]]; echo \"n=${#BASH_REMATCH[@]}\"\n")
+	// && || ! ( ) inside [[ ]] and the -a -o ( ) of [ over all truth vectors
+	var cmds []string
+	tv := map[bool]string{true: "-n a", false: "-z a"}
+	for _, p := range []bool{true, false} {
+		for _, q := range []bool{true, false} {
+			P, Q := tv[p], tv[q]
+			cmds = append(cmds,
+				"[[ "+P+" && "+Q+" ]]", "[[ "+P+" || "+Q+" ]]", "[[ ! "+P+" && "+Q+" ]]", "[[ ! ( "+P+" || "+Q+" ) ]]", "[[ ( "+P+" ) ]]",
+				"[ "+P+" -a "+Q+" ]", "[ "+P+" -o "+Q+" ]", "[ ! "+P+" -a "+Q+" ]", "[ ! '(' "+P+" -o "+Q+" ')' ]", "[ '(' "+P+" ')' ]",
+				"test "+P+" -a "+Q, "test "+P+" -o "+Q, "[ "+P+" ] && [ "+Q+" ]", "[ "+P+" ] || [ "+Q+" ]", "! [ "+P+" ]", "! [[ "+P+" ]]")
+			for _, r := range []bool{true, false} {
+				R := tv[r]
+				cmds = append(cmds, "[[ "+P+" || "+Q+" && "+R+" ]]", "[ "+P+" -o "+Q+" -a "+R+" ]", "[[ "+P+" && "+Q+" || "+R+" ]]", "[ "+P+" -a "+Q+" -o "+R+" ]")
+			}
+		}
+	}
+	emit("btest-logic[truth vectors]", c26BuiltinCol("", cmds))
+}
+
+// ---- the POSIX argument-count rules of [ -----------------------------------
+
+func c26BuiltinTestArgc(thorough bool, emit c26EmitFn) {
+	toks := []string{"!", "-n", "a", "''", "=", "'('", "')'", "-a", "-o"}
+	maxLen, chunk := 3, 82
+	if thorough {
+		maxLen, chunk = 4, 81
+	}
+	var seqs []string
+	// breadth first: all sequences of length 0, then 1, ...
+	for l := 0; l <= maxLen; l++ {
+		var level []string
+		var gen func(prefix string, n int)
+		gen = func(prefix string, n int) {
+			if n == l {
+				level = append(level, prefix)
+				return
+			}
+			for _, t := range toks {
+				gen(prefix+t+" ", n+1)
+			}
+		}
+		gen("", 0)
+		seqs = append(seqs, level...)
+	}
+	for i := 0; i < len(seqs); i += chunk {
+		j := min(i+chunk, len(seqs))
+		var cmds []string
+		for _, s := range seqs[i:j] {
+			cmds = append(cmds, "[ "+s+"]")
+		}
+		emit("btest-argc["+strconv.Itoa(i)+".."+strconv.Itoa(j-1)+" from `[ "+seqs[i]+"]`]", c26BuiltinCol("", cmds))
+	}
+	// missing ] and the same through `test`
+	emit("btest-argc[no closing bracket]", c26BuiltinCol("", []string{"[", "[ a", "[ a = a", "[ ]", "test", "test a ]", "test ]", "[ ] ]", "[ a ] ]", "[ ']' ]", "[ ']' = ']' ]"}))
+}
+
+// ---- unquoted variables in [ ] (split: too many arguments) and [[ ]] (not split)
+
+func c26BuiltinTestWords(thorough bool, emit c26EmitFn) {
+	vals := []string{"", "a b", "*", "a*", "-n", "!", "(", "=", "-f f", "a = a", "a = b", "f", " "}
+	for _, v := range vals {
+		pre := "echo hi > f; : > a1; : > a2\nv=" + c26QSingle(v) + "\n"
+		cmds := []string{
+			"[ $v ]", "[ -n $v ]", "[ -z $v ]", "[ $v = $v ]", "[ $v = x ]", "[ x = $v ]", "[ ! $v ]", "[ $v != x ]", "[ -f $v ]", "[ \"$v\" ]", "[ -n \"$v\" ]", "[ \"$v\" = \"$v\" ]", "test $v", "test -n $v",
+			"[[ $v ]]", "[[ -n $v ]]", "[[ -z $v ]]", "[[ $v == \"$v\" ]]", "[[ $v == x ]]", "[[ x == \"$v\" ]]", "[[ ! $v ]]", "[[ $v != x ]]", "[[ -f $v ]]", "[[ \"$v\" ]]", "[[ $v == $v ]]", "[[ a1 == $v ]]", "[[ $v < b ]]",
+		}
+		emit("btest-words[v="+c26QSingle(v)+"]", c26BuiltinCol(pre, cmds))
+	}
+}
+
+// ---- (( )) and let ----------------------------------------------------------
+
+func c26BuiltinArith(thorough bool, emit c26EmitFn) {
+	type ex struct{ name, e, init string }
+	exprs := []ex{
+		{"zero", "0", "0"}, {"one", "1", "0"}, {"neg", "-1", "0"}, {"assign0", "i=0", "5"}, {"assign5", "i=5", "0"},
+		{"postinc-from-0", "i++", "0"}, {"postinc-from--1", "i++", "-1"}, {"preinc-from--1", "++i", "-1"}, {"postdec-from-1", "i--", "1"}, {"predec-from-1", "--i", "1"},
+		{"less", "i<3", "0"}, {"less-false", "i<3", "3"}, {"equal", "i==0", "0"}, {"undefined", "u", "0"}, {"indirect", "s", "0"}, {"indirect-empty", "w", "0"},
+		{"comma-10", "1,0", "0"}, {"comma-01", "0,1", "0"}, {"addassign0", "i+=0", "0"}, {"not", "!i", "0"}, {"ternary", "i?0:1", "0"}, {"andor", "i&&1||0", "0"},
+		{"mul0", "i*=0", "4"}, {"zero-var", "z", "0"},
+	}
+	for _, x := range exprs {
+		var sb strings.Builder
+		sb.WriteString("s=t; t=7; w=; z=0\n")
+		forms := []struct{ name, cmd string }{{"arith", "(( " + x.e + " ))"}}
+		if !strings.ContainsAny(x.e, "<>!?&|*") {
+			// a quoted let argument is the known class
+			// let-expression-with-spaces-does-not-assign (the interpreter does
+			// not parse a quoted word again): unquoted arguments only
+			forms = append(forms, []struct{ name, cmd string }{
+				{"let", "let " + x.e},
+				{"let2", "let 0 " + x.e},
+				{"let3", "let " + x.e + " 0"},
+			}...)
+		}
+		n := 0
+		for _, f := range forms {
+			ctxs := []string{
+				f.cmd + "; echo \"N:$? i=$i\"",
+				"if " + f.cmd + "; then echo \"N:T i=$i\"; else echo \"N:F i=$i\"; fi",
+				f.cmd + " && echo \"N:and i=$i\"",
+				f.cmd + " || echo \"N:or i=$i\"",
+				"! " + f.cmd + "; echo \"N:$? i=$i\"",
+				"k=0; while " + f.cmd + "; do echo \"N:W i=$i\"; k=$((k+1)); [[ $k -ge 2 ]] && break; done; echo \"N:$? i=$i\"",
+				"k=0; until " + f.cmd + "; do echo \"N:U i=$i\"; k=$((k+1)); [[ $k -ge 2 ]] && break; done; echo \"N:$? i=$i\"",
+			}
+			for _, c := range ctxs {
+				n++
+				sb.WriteString("i=" + x.init + "; " + strings.ReplaceAll(c, "N:", strconv.Itoa(n)+":") + "\n")
+			}
+		}
+		emit("barith-status["+x.name+" "+x.e+"]", sb.String())
+	}
+	emit("barith-let[argument forms]", c26BuiltinCol("i=0\n", []string{"let i=3 i+=1", "let i==4", "let i=i-4", "(( i = 0 ))", "(( i = 2, i - 2 ))", "let i=2,i-2"})+"echo \"i=$i\"\n")
+}
+
+// ---- arrays as programs use them --------------------------------------------
+
+func c26BuiltinArrays(thorough bool, emit c26EmitFn) {
+	states := []struct{ name, init string }{
+		{"empty", "a=()"},
+		{"one-empty", "a=('')"},
+		{"spaces", "a=('x y' z '')"},
+		{"sparse", "a=(p q r s); unset 'a[1]'"},
+		{"sparse-assigned", "a=([2]=m [5]='n o')"},
+		{"assoc1", "declare -A a=([k]='v w')"},
+		{"scalar", "unset a; a=sc"},
+		{"unset", "unset a"},
+	}
+	iters := []struct{ name, head string }{
+		{"at-quoted", "for x in \"${a[@]}\""},
+		{"star-quoted", "for x in \"${a[*]}\""},
+		{"at-unquoted", "for x in ${a[@]}"},
+		{"star-unquoted", "for x in ${a[*]}"},
+		{"keys-quoted", "for x in \"${!a[@]}\""},
+		{"keys-unquoted", "for x in ${!a[*]}"},
+		{"cstyle", "for ((x=0; x<6; x++))"},
+		{"func-args", "f() { echo \"argc=$#\"; for x in \"$@\"; do echo \"<$x>\"; done; }; f \"${a[@]}\"; for x in"},
+	}
+	bodies := []struct{ name, src string }{
+		{"none", ""},
+		{"append", "a+=(new); "},
+		{"unset-first", "unset 'a[0]'; "},
+		{"unset-elem-x", "unset \"a[$x]\"; "},
+		{"reassign", "a=(R S); "},
+		{"unset-all", "unset a; "},
+		{"assign-elem", "a[1]=E; "},
+	}
+	for _, st := range states {
+		for _, b := range bodies {
+			if !thorough && (b.name == "unset-all" || b.name == "assign-elem") {
+				continue
+			}
+			var sb strings.Builder
+			for i, it := range iters {
+				body := b.src
+				if b.name == "unset-elem-x" && !strings.HasPrefix(it.name, "keys") && it.name != "cstyle" {
+					continue // x is not a subscript
+				}
+				if strings.HasPrefix(st.name, "assoc") && (it.name == "cstyle" || b.name == "append" || b.name == "reassign" || b.name == "unset-first" || b.name == "assign-elem") {
+					continue // not meaningful for an associative array (a+=(new) needs a key)
+				}
+				if (st.name == "unset" || st.name == "scalar" || b.name == "unset-all") && strings.HasPrefix(it.name, "keys") {
+					continue // known classes keys-of-unset-variable-is-fatal-see-C33 and C21's keys-of-scalar
+				}
+				n := strconv.Itoa(i + 1)
+				show := "echo \"" + n + ":<$x> n=${#a[@]}\"; "
+				if it.name == "cstyle" {
+					show = "echo \"" + n + ":$x<${a[x]}> n=${#a[@]}\"; "
+				}
+				sb.WriteString("unset a; " + st.init + "; " + it.head + "; do " + show + body + "done; echo \"" + n + ":end rc=$? n=${#a[@]} all=<${a[*]}> first=<$a>\"\n")
+			}
+			emit("barray-iter["+st.name+" body="+b.name+"]", sb.String())
+		}
+	}
+	// an associative array that is declared first and filled later
+	emit("barray-assoc[declared, then assigned]", "declare -A m; m=([k]=v [j]=w); echo \"1:${m[k]} ${m[j]} n=${#m[@]}\"\ndeclare -A e=(); e=([k]=v); echo \"2:${e[k]}\"\ndeclare -A d; d[k]=v; d=([j]=w); echo \"3:${d[j]} ${d[k]-U}\"\nf() { local -A l; l=([k]=v); echo \"4:${l[k]}\"; }; f\n")
+	// whole-array operations and what they leave
+	ops := []string{"unset a", "unset 'a[1]'", "unset 'a[0]'", "unset 'a[9]'", "unset 'a[-1]'", "a=()", "a=", "a=new", "a+=(t)", "a+=t", "a[7]=h", "a=(\"${a[@]}\")", "a=(\"${a[@]:1}\")", "a=(${a[*]})", "b=(\"${a[@]}\"); a=(\"${b[@]}\" \"${b[@]}\")", "a[${#a[@]}]=len", "set -- \"${a[@]}\"; shift; a=(\"$@\")", "unset a[1]", "unset a b", "unset -v 'a[0]' 'a[1]'", "IFS=:; x=\"${a[*]}\"; unset IFS; a=($x)"}
+	for _, st := range states {
+		if st.name == "unset" || st.name == "scalar" {
+			continue
+		}
+		var sb strings.Builder
+		for i, op := range ops {
+			if strings.HasPrefix(st.name, "assoc") && (strings.Contains(op, "+=(t)") || op == "a[${#a[@]}]=len" || op == "a=" || op == "a=new" || op == "a+=t" || strings.Contains(op, "a=(")) {
+				continue // assignments without a key to an associative array: bash's own corner, left out
+			}
+			n := strconv.Itoa(i + 1)
+			// each line in a subshell: readonly and the like must not leak
+			keys := " keys=<${!a[*]}>"
+			if op == "unset a" || op == "unset a b" {
+				keys = "" // known class keys-of-unset-variable-is-fatal-see-C33
+			}
+			sb.WriteString("( unset a; " + st.init + "; " + op + "; echo \"" + n + ":$? n=${#a[@]} all=<${a[*]}>" + keys + " first=<$a>\" )\n")
+		}
+		emit("barray-ops["+st.name+"]", sb.String())
+	}
+}
+
+// ---- shift, set -- -----------------------------------------------------------
+
+func c26BuiltinShiftSet(thorough bool, emit c26EmitFn) {
+	ns := []string{"", "0", "1", "2", "3", "4", "-1", "x", "''", "+1", "01", "' 1'"}
+	for _, argv := range []string{"", "a b c"} {
+		for _, where := range []string{"top", "function"} {
+			var sb strings.Builder
+			for i, n := range ns {
+				k := strconv.Itoa(i + 1)
+				line := "shift " + n + "; echo \"" + k + ":$? $# <$*>\""
+				if where == "function" {
+					sb.WriteString("f() { " + line + "; }; set -- " + argv + "; f " + argv + "; echo \"" + k + ":outer $# <$*>\"\n")
+				} else {
+					sb.WriteString("set -- " + argv + "; " + line + "\n")
+				}
+			}
+			emit("bcmd-shift[argv=("+argv+") "+where+"]", sb.String())
+		}
+	}
+	show := "echo \"N:$? $# <$1> <$2> <$3> <$*>\""
+	sets := []string{"set --", "set -- \"$@\" x", "set -- x \"$@\"", "set -- \"$@\" \"$@\"", "set a", "set -- -x", "set -- --", "set -", "set - a b", "set -- ''", "set -- 'p q' r", "set -- $*", "set -- \"$*\"", "set +", "set -- -", "set x -y", "set -- \"${@:2}\"", "set -f -- m n", "set +f o"}
+	for _, argv := range []string{"", "'1 2' 3"} {
+		var sb strings.Builder
+		for i, s := range sets {
+			sb.WriteString("set -- " + argv + "; " + s + "; " + strings.ReplaceAll(show, "N:", strconv.Itoa(i+1)+":") + "\n")
+		}
+		emit("bcmd-set[positional argv=("+argv+")]", sb.String())
+	}
+	emit("bcmd-set[options]", c26BuiltinCol("", []string{"set -e +e", "set -o errexit; set +o errexit", "set -o nosuchoption", "set -Z", "set -o >/dev/null", "set +o >/dev/null", "set -u; set +u", "set -f; echo *", "set +f", "set -ef; set +ef", "set -o noglob -o nounset; set +o noglob +o nounset", "set -x 2>/dev/null; set +x 2>/dev/null"})+
+		"echo \"flags=${-//[^efuC]/}\"\n")
+	emit("bcmd-set[pipefail]", c26BuiltinCol("", []string{"false | true", "set -o pipefail; false | true", "true | false | true", "(exit 3) | (exit 4) | true", "set +o pipefail; false | true", "set -o pipefail; ! false | true", "true | true"}))
+	emit("bcmd-simple[true false colon]", c26BuiltinCol("", []string{"true", "false", ":", "true x y", "false x y", ": ${q:=set}", ": > made", "[[ -e made ]]", "! true", "! false", "! :", "true && false", "false || :", "x=1 true", "x=2 false", "y=$(false)", "y=$(true)", "y=$(false) true", "z=1 y=$(false)", "echo", "echo a b", "echo ''", "echo a > o", ":"})+"echo \"q=$q x=$x\"\n")
+}
+
+// ---- set -u ------------------------------------------------------------------
+
+func c26BuiltinNounset(thorough bool, emit c26EmitFn) {
+	uses := []struct{ name, src string }{
+		{"plain", "echo $u"}, {"dq", "echo \"$u\""}, {"braces", "echo ${u}"}, {"default", "echo ${u:-d}"}, {"dash", "echo \"${u-}\""}, {"plus", "echo \"${u+s}\""},
+		{"length", "echo ${#u}"}, {"suffix", "echo ${u#y}"}, {"subst", "echo ${u/a/b}"}, {"arith-exp", "echo $((u))"}, {"arith-exp-dollar", "echo $(($u + 1))"}, {"arith-cmd", "(( u )); echo \"st=$?\""},
+		{"elem", "echo ${arr[0]}"}, {"elem-of-set", "arr=(1); echo \"${arr[5]}\""}, {"at-of-unset", "echo \"${arr[@]}\""}, {"at-of-empty", "arr=(); echo \"n=${#arr[@]} ${arr[@]}\""}, {"count-of-unset", "echo ${#arr[@]}"},
+		{"pos1", "echo $1"}, {"pos-at", "echo \"$@\""}, {"pos-star", "echo \"$*\""}, {"pos-count", "echo $#"}, {"pos-slice", "echo \"${@:2}\""},
+		{"error-if-unset", "echo ${u:?}"}, {"assign", "y=$u"}, {"assign-default", "echo ${u:=d}$u"}, {"for-list", "for i in $u; do echo i; done"}, {"case-subject", "case $u in *) echo m;; esac"},
+		{"dbr", "[[ -n $u ]]"}, {"test", "[ -n \"$u\" ]"}, {"test-v", "[[ -v u ]]; echo \"st=$?\""}, {"heredoc", "read l <<EOF\n$u\nEOF\n"}, {"herestring", "read l <<< $u"}, {"redir-target", "echo a > $u"},
+		{"prefix-assign", "y=$u true"}, {"local", "f() { local l=$u; echo in; }; f"}, {"export", "export e=$u"}, {"after-unset", "u=1; unset u; echo $u"}, {"empty-is-set", "u=; echo \"[$u]\""},
+		{"special-bang", "echo \"[$!]\""}, {"indirect", "n=u; echo \"${!n}\""}, {"cond-and", "false && echo $u"}, {"in-or", "echo $u || echo alt"},
+	}
+	places := []struct{ name, open, close string }{
+		{"top", "", ""},
+		{"subshell", "( ", " ); echo \"sub=$?\""},
+		{"function", "g() { ", "; echo \"g-after=$?\"; }; g; echo \"fn=$?\""},
+		{"cmdsubst", "c=$( ", " ); echo \"cs=$? [$c]\""},
+		{"if-cond", "if ", "; then echo T; else echo F; fi"},
+	}
+	quickTop := map[string]bool{"plain": true, "dq": true, "elem": true, "pos1": true, "arith-exp": true, "dbr": true, "assign": true, "length": true, "for-list": true, "herestring": true, "local": true, "at-of-unset": true}
+	for _, p := range places {
+		var packed []string
+		for _, u := range uses {
+			if strings.Contains(u.src, "<<EOF") && p.name != "top" {
+				continue
+			}
+			src := "set -u\necho before\n" + p.open + u.src + p.close + "\necho \"after=$?\"\n"
+			if thorough || (p.name == "top" && quickTop[u.name]) {
+				emit("bcmd-nounset["+u.name+" in "+p.name+"]", src)
+			} else {
+				packed = append(packed, src)
+			}
+		}
+		if len(packed) > 0 {
+			emit("bcmd-nounset[packed: every other use in "+p.name+"]", c26BuiltinPacked(packed))
+		}
+	}
+}
+
+// ---- unset, readonly, export ---------------------------------------------------
+
+func c26BuiltinUnsetReadonly(thorough bool, emit c26EmitFn) {
+	state := "echo \"N:$? x=${x-U} f=$(f 2>/dev/null || echo nofn) n=${n-U} nfn=$(n 2>/dev/null || echo nofn) r=${r-U}\""
+	pre := "x=1; f() { echo fn; }; n=var; n() { echo nfn; }; readonly r=ro; rf() { echo rf; }"
+	ops := []string{"unset x", "unset -v x", "unset -f x", "unset f", "unset -v f", "unset -f f", "unset n", "unset -v n", "unset -f n", "unset n n", "unset r", "unset -v r", "unset x r", "unset r x", "unset nosuch", "unset -f nosuch", "unset -v nosuch", "unset", "unset -f", "unset ''", "unset 1x", "unset -z x", "unset -- x", "unset x f n", "unset -fv x"}
+	var sb strings.Builder
+	for i, op := range ops {
+		sb.WriteString("( " + pre + "; " + op + "; " + strings.ReplaceAll(state, "N:", strconv.Itoa(i+1)+":") + " )\n")
+	}
+	emit("bcmd-unset[forms]", sb.String())
+	// readonly variable x ways to (try to) change it; does the script go on?
+	changes := []struct{ name, src string }{
+		{"assign", "r=2"}, {"append", "r+=2"}, {"prefix-builtin", "r=2 echo pb"}, {"prefix-function", "h() { echo \"h:$r\"; }; r=2 h"}, {"prefix-special", "r=2 :"},
+		{"export-assign", "export r=2"}, {"declare-assign", "declare r=2"}, {"readonly-again", "readonly r=2"}, {"local-assign", "h() { local r=2; echo \"h:$? $r\"; }; h"},
+		{"for-var", "for r in 2 3; do echo \"loop:$r\"; done"}, {"read", "read r <<< 2"}, {"arith", "(( r = 2 ))"}, {"arith-exp", "echo $(( r = 2 ))"}, {"default-assign", ": ${r:=2}"},
+		{"unset", "unset r"}, {"array-assign", "r=(2 3)"}, {"elem-assign", "r[1]=2"}, {"getopts-var", "builtin getopts a r -a"}, {"assign-in-subshell", "( r=2; echo \"sub:$r\" )"}, {"assign-in-cmdsubst", "echo \"$( r=2; echo \"cs:$r\" )\""},
+		{"assign-two", "q=1 r=2"}, {"assign-in-function", "h() { r=2; echo \"h-after:$?\"; }; h"}, {"assign-and", "r=2 && echo yes"}, {"assign-or", "r=2 || echo alt"}, {"assign-if", "if r=2; then echo T; else echo F; fi"},
+		{"let", "let r=2"}, {"readonly-function", "readonly -f rf; rf() { echo new; }; rf"}, {"export-n", "export -n r"}, {"printf-free-eval", "eval r=2"},
+	}
+	quickOwn := map[string]bool{"assign": true, "for-var": true, "assign-in-function": true}
+	for _, ro := range []string{"readonly r=1", "r=1; readonly r", "declare -r r=1"} {
+		if !thorough && ro != "readonly r=1" {
+			continue
+		}
+		var packed []string
+		for _, c := range changes {
+			src := "rf() { echo rf; }\n" + ro + "; echo \"ro:$?\"\n" + c.src + "\necho \"st=$? r=$r q=${q-U}\"\necho end\n"
+			if thorough || (quickOwn[c.name] && ro == "readonly r=1") {
+				emit("bcmd-readonly["+c.name+" after "+ro+"]", src)
+			} else {
+				packed = append(packed, src)
+			}
+		}
+		if len(packed) > 0 {
+			emit("bcmd-readonly[packed: every other change after "+ro+"]", c26BuiltinPacked(packed))
+		}
+	}
+	emit("bcmd-export[forms]", c26BuiltinCol("", []string{"export x=1", "export y", "export x=2 z=3", "export -n x", "export -n nosuch", "export x+=5", "export a=(1 2) 2>/dev/null", "export -f nosuchfn", "f() { :; }; export -f f", "export -- w=6", "readonly >/dev/null", "readonly -p >/dev/null", "export -p >/dev/null", "export >/dev/null"})+"echo \"x=$x y=${y-U} z=$z w=$w\"\n")
+}
+
+// ---- eval ----------------------------------------------------------------------
+
+func c26BuiltinEval(thorough bool, emit c26EmitFn) {
+	args := []struct{ name, src string }{
+		{"none", "eval"}, {"empty", "eval ''"}, {"blank", "eval ' '"}, {"one", "eval 'echo a'"}, {"two-joined", "eval echo 'a   b'"}, {"three", "eval 'echo a;' 'echo b;' echo c"},
+		{"false", "eval false"}, {"status", "eval '(exit 3)'"}, {"syntax-error", "eval 'if'"}, {"syntax-error-paren", "eval 'echo ('"}, {"unterminated-quote", "eval \"echo 'a\""},
+		{"assign", "eval 'ev=1'; echo \"ev=$ev\""}, {"expand-twice", "p='$q'; q=deep; eval echo \"$p\""}, {"dashdash", "eval -- 'echo dd'"}, {"nested", "eval \"eval 'echo n; (exit 4)'\""},
+		{"comment", "eval '# nothing'"}, {"newline", "eval 'echo l1\necho l2; (exit 5)'"}, {"function-def", "eval 'ef() { echo ef; }'; ef"}, {"last-status-kept", "(exit 6); eval ''"}, {"status-visible", "(exit 7); eval 'echo \"in:$?\"'"},
+		{"empty-after-false", "false; eval"}, {"set-positional", "eval 'set -- u v'; echo \"$#\""}, {"heredoc", "eval 'read l <<EOF\nhd\nEOF\n'; echo \"$l\""}, {"exit-in-eval", "eval 'exit 8'; echo not"}, {"option", "eval -x 'echo o'"},
+	}
+	ctxs := []struct{ name, open, close string }{
+		{"plain", "", "; echo \"st=$?\""},
+		{"or", "", " || echo \"or=$?\""},
+		{"if", "if ", "; then echo T; else echo \"F=$?\"; fi"},
+		{"errexit", "set -e; ", "; echo \"survived=$?\""},
+		{"not", "! ", "; echo \"not=$?\""},
+		{"function-return", "h() { ", "; }; h; echo \"h=$?\""},
+		{"subshell", "( ", " ); echo \"sub=$?\""},
+		{"cmdsubst", "o=$( ", " ); echo \"cs=$? [$o]\""},
+	}
+	for _, a := range args {
+		var packed []string
+		for _, c := range ctxs {
+			if strings.Contains(a.src, "; echo") && c.name != "plain" {
+				continue
+			}
+			src := c.open + a.src + c.close + "\necho \"end=$?\"\n"
+			if thorough || c.name == "plain" && (a.name == "syntax-error" || a.name == "exit-in-eval") || c.name == "errexit" && (a.name == "status" || a.name == "false" || a.name == "syntax-error" || a.name == "exit-in-eval") {
+				emit("bcmd-eval["+a.name+" "+c.name+"]", src)
+			} else if c.name == "errexit" {
+				// not packed: set -e next to a negation in one program text is the
+				// trigger of the known class errexit-not-ignored-inside-negated-command
+				continue
+			} else {
+				packed = append(packed, src)
+			}
+		}
+		if len(packed) > 0 {
+			emit("bcmd-eval["+a.name+" packed: contexts]", c26BuiltinPacked(packed))
+		}
+	}
+	// control flow through eval and return/break from inside
+	emit("bcmd-eval[control flow]", "for i in 1 2 3; do eval 'if [[ $i == 2 ]]; then continue; fi'; echo \"i=$i\"; done; echo \"1:$?\"\n"+
+		"for i in 1 2 3; do eval break; echo \"i=$i\"; done; echo \"2:$?\"\n"+
+		"h() { eval 'return 9'; echo not; }; h; echo \"3:$?\"\n"+
+		"h() { eval 'local lv=1'; echo \"lv=$lv\"; }; h; echo \"4:$? ${lv-U}\"\n"+
+		"eval 'for j in a b; do echo $j; done'; echo \"5:$?\"\n")
+}
+
+// ---- getopts ---------------------------------------------------------------------
+
+func c26BuiltinGetopts(thorough bool, emit c26EmitFn) {
+	// spelled `builtin getopts`: the known class
+	// getopts-missing-argument-reported-as-colon has any call named getopts as
+	// its trigger and would absorb every program of this family
+	optstrings := []string{"ab:c", ":ab:c"}
+	argvs := []string{"", "-a", "-ab val", "-a -b val", "-bval", "-b", "-x", "-a -- -c", "-a x -c", "-abc", "-", "--", "-a -b", "-ax", "-ca -b v rest", "-b -a", "-b -- -a", "x -a", "-a '' -c", "-:", "-a -b ''", "-b=1", "--long"}
+	loop := "while builtin getopts \"$os\" opt; do echo \"opt=<$opt> arg=<${OPTARG-U}> ind=$OPTIND\"; done; echo \"rc=$? opt=<$opt> arg=<${OPTARG-U}> ind=$OPTIND\"\n"
+	for _, os := range optstrings {
+		var packed [3][]string
+		for _, av := range argvs {
+			srcs := [3]string{
+				"os='" + os + "'\nset -- " + av + "\n" + loop + "shift $((OPTIND-1)); echo \"rest=$# <$*>\"\n",
+				"os='" + os + "'\n" + strings.ReplaceAll(loop, " opt;", " opt "+av+";"),
+				"os='" + os + "'\nh() { local OPTIND=1; " + strings.TrimSuffix(loop, "\n") + "; }\nh " + av + "\necho \"outer ind=$OPTIND\"\n",
+			}
+			for k, form := range []string{"positional", "explicit", "function"} {
+				if !thorough && k > 0 {
+					continue // quick: the positional form only, all argument vectors in one program
+				}
+				if thorough {
+					emit("bcmd-getopts["+form+" optstring="+os+" argv=("+av+")]", srcs[k])
+				} else {
+					packed[k] = append(packed[k], srcs[k])
+				}
+			}
+		}
+		for k, form := range []string{"positional", "explicit", "function"} {
+			if len(packed[k]) > 0 {
+				emit("bcmd-getopts["+form+" optstring="+os+" packed: argument vectors]", c26BuiltinPacked(packed[k]))
+			}
+		}
+		// OPTIND reset between two parses, and no reset
+		emit("bcmd-getopts[reset optstring="+os+"]", "os='"+os+"'\nset -- -a -b v\n"+loop+"OPTIND=1\nset -- -c -a\n"+loop+"set -- -a -c\n"+loop+"OPTIND=2\n"+loop)
+	}
+	emit("bcmd-getopts[usage]", c26BuiltinCol("", []string{"builtin getopts", "builtin getopts a", "builtin getopts a 1x -a", "builtin getopts a o -a; echo \"$o\"", "OPTIND=1; builtin getopts '' o -a; echo \"$o\"", "OPTIND=1; builtin getopts a o; echo \"[$o]\"", "OPTIND=x; builtin getopts a o -a; echo \"$o\"", "OPTIND=0; builtin getopts a o -a; echo \"$o\"", "OPTIND=5; builtin getopts a o -a; echo \"[$o]\""}))
+}
+
+// ---- type, command -v, cd, pwd, break/continue outside loops -----------------------
+
+func c26BuiltinTypeCd(thorough bool, emit c26EmitFn) {
+	names := []string{"fn", "echo", "set", "if", "[[", "{", "!", "nosuch", "''", "al", "[", "test", "cd", "time", "function", ".", ":", "/dev/null", "fn nosuch", "nosuch fn"}
+	pre := "fn() { echo infn; }\n"
+	forms := []string{"type NAME >/dev/null", "type -t NAME", "command -v NAME", "command -V NAME >/dev/null", "type -p NAME", "type -P NAME", "hash NAME 2>/dev/null", "type -a NAME >/dev/null", "builtin NAME >/dev/null", "command NAME >/dev/null"}
+	runnable := func(nm string) bool {
+		// running these without arguments is another subject
+		return !(nm == "if" || nm == "[[" || nm == "{" || nm == "!" || nm == "time" || nm == "function" || nm == "." || nm == "''" || nm == "set" || nm == "[" || nm == "/dev/null")
+	}
+	if thorough {
+		for _, nm := range names {
+			var cmds []string
+			for k, f := range forms {
+				if k < 8 || runnable(nm) {
+					cmds = append(cmds, strings.ReplaceAll(f, "NAME", nm))
+				}
+			}
+			emit("bcmd-type[name "+nm+"]", c26BuiltinCol(pre, cmds))
+		}
+	} else {
+		for k, f := range forms {
+			var cmds []string
+			for _, nm := range names {
+				if k < 8 || runnable(nm) {
+					cmds = append(cmds, strings.ReplaceAll(f, "NAME", nm))
+				}
+			}
+			emit("bcmd-type[form "+f+"]", c26BuiltinCol(pre, cmds))
+		}
+	}
+	// cd and pwd: the scratch directory has a different name on each side,
+	// so compare with the start directory instead of printing it
+	show := "echo \"N:$? here=$([[ $PWD == \"$start\" ]] && echo start || echo \"${PWD/#$start/S}\") pwd=$([[ $(pwd) == \"$PWD\" ]] && echo same || echo differs) old=$([[ $OLDPWD == \"$start\" ]] && echo start || echo \"${OLDPWD/#$start/S}\")\""
+	cds := []string{"cd .", "cd ..", "cd nosuch", "cd ''", "cd - >/dev/null", "cd", "cd /", "cd /dev", "cd /dev/..", "cd //", "cd /dev/../dev/.", "cd . .", "cd f", "cd ./", "cd /dev; cd ..", "cd /dev; cd - >/dev/null", "cd /dev; cd \"$start\"", "cd /; cd dev", "cd -- /dev", "cd -L /dev", "cd -P /dev", "cd /dev/null", "HOME=/dev; cd", "HOME=/dev; cd ~", "CDPATH=/; cd dev >/dev/null", "cd /dev; cd ../..", "cd /dev/./../dev"}
+	var sb strings.Builder
+	sb.WriteString("start=$PWD; : > f\n")
+	for i, c := range cds {
+		sb.WriteString("( " + c + "; " + strings.ReplaceAll(show, "N:", strconv.Itoa(i+1)+":") + " )\n")
+	}
+	emit("bcmd-cd[forms]", sb.String())
+	emit("bcmd-cd[pwd and variables]", "start=$PWD\n"+c26BuiltinCol("", []string{"pwd >/dev/null", "pwd -L >/dev/null", "pwd -P >/dev/null", "pwd -x >/dev/null", "pwd extra >/dev/null", "[[ $(pwd) == \"$start\" ]]", "[[ -z ${OLDPWD-} ]]", "cd /dev", "[[ $OLDPWD == \"$start\" ]]", "[[ $PWD == /dev ]]", "PWD=/fake; [[ $(pwd) == /dev ]]", "cd .; [[ $PWD == /dev ]]", "unset OLDPWD; cd - >/dev/null", "OLDPWD=/; cd - >/dev/null; [[ $PWD == / ]]", "cd /bin; [[ $(pwd) == /bin ]]", "[[ $(pwd -P) == /usr/bin ]]", "cd ..; [[ $PWD == / ]]", "cd -P /bin; [[ $PWD == /usr/bin ]]", "cd ..; [[ $PWD == /usr ]]"}))
+	// break / continue where there is no loop
+	for _, w := range []string{"break", "continue"} {
+		emit("bcmd-noloop["+w+"]", c26BuiltinCol("", []string{w, w + " 1", w + " 2", "{ " + w + "; echo \"after:$?\"; }", "( " + w + "; echo \"after:$?\" )", "x=$( " + w + "; echo \"after:$?\" ); echo \"$x\"", "if true; then " + w + "; echo \"after:$?\"; fi", "case a in a) " + w + "; echo \"after:$?\";; esac", "eval " + w, w + " 1 2", "for i in 1 2; do ( " + w + "; echo \"sub:$?\" ); echo \"i=$i\"; done", "for i in 1 2; do x=$( " + w + "; echo \"cs:$?\" ); echo \"i=$i $x\"; done"}))
+	}
+}
+
+// ---- exit --------------------------------------------------------------------------
+
+func c26BuiltinExit(thorough bool, emit c26EmitFn) {
+	args := []string{"", "0", "1", "255", "256", "257", "-1", "x", "''", "1 2", "x 2", "+3", "03", "' 4'", "9223372036854775807", "1.5"}
+	places := []struct{ name, open, close string }{
+		{"top", "", "; echo not"},
+		{"subshell", "( ", "; echo not ); echo \"sub=$?\""},
+		{"function", "h() { ", "; echo not; }; h; echo \"notreached=$?\""},
+		{"cmdsubst", "o=$( ", "; echo not ); echo \"cs=$? [$o]\""},
+		{"group", "{ ", "; echo not; }; echo not2"},
+		{"eval", "eval '", "; echo not'; echo not2"},
+		{"pipe-first", "{ ", "; echo not; } | { read l; echo \"got=[$l]\"; }; echo \"pipe=$?\""},
+		{"and-list", "true && ", " || echo not; echo not2"},
+		{"if-cond", "if ", "; then echo T; else echo F; fi; echo not2"},
+		{"loop", "for i in 1 2; do ", "; echo not; done; echo not2"},
+		{"exit-trap", "trap 'echo \"trap:$?\"' EXIT; ", "; echo not"},
+		{"function-in-subshell", "h() { ", "; }; ( h; echo not ); echo \"sub=$?\""},
+	}
+	for _, p := range places {
+		var packed []string
+		for _, a := range args {
+			for _, before := range []string{"true", "false", "(exit 5)"} {
+				if a != "" && a != "x" && a != "1 2" && before != "false" {
+					continue // the status on entry matters without a usable argument only
+				}
+				if a == "1 2" && before == "(exit 5)" && p.name == "cmdsubst" {
+					continue
+				}
+				if !thorough && p.name == "exit-trap" && !(before == "false" && (a == "" || a == "3" || a == "256" || a == "x")) {
+					continue // an EXIT trap in a subshell is the known class exit-trap-set-in-subshell-never-runs: own programs only
+				}
+				src := "echo start\n" + p.open + before + "; exit " + a + p.close + "\n"
+				if thorough || (p.name == "top" && before != "(exit 5)") || p.name == "exit-trap" {
+					emit("bcmd-exit[arg=("+a+") in "+p.name+" after "+before+"]", src)
+				} else {
+					packed = append(packed, src)
+				}
+			}
+		}
+		if len(packed) > 0 {
+			emit("bcmd-exit[packed: arguments in "+p.name+"]", c26BuiltinPacked(packed))
+		}
+	}
 }
